@@ -43,12 +43,18 @@ CanonProper(m) == m.cs = "in" /\ ~m.dot
 DepthOK(m, lo, hi) == m.n >= lo /\ (hi = -1 \/ m.n <= hi)
 
 (* ---- C09 exhaustiveness: obligation monitor ---- *)
-(* ob: some canonical proper prefix (or "/") was accepted and the path has gone beneath it;   *)
-(* obE: the EMPTY path was accepted and the path is a relative path beneath it                *)
-ExhInit == [ob |-> FALSE, obE |-> FALSE]
-ExhStep(x, m, acc, c) ==
-  [ob  |-> x.ob \/ (acc /\ ((CanonProper(m) /\ c = qSEP) \/ (m.cs = "root" /\ c # qSEP))),
+(* ob:  some canonical proper prefix was accepted and the path has gone beneath it;            *)
+(* obR: the bare root "/" was accepted and the path is a rooted path beneath it;              *)
+(* obE: the EMPTY path was accepted and the path is a relative path beneath it;               *)
+(* obX: (only with two automata, NegCheck) the prefix was accepted by the first automaton but *)
+(*      not by the second                                                                     *)
+ExhInit == [ob |-> FALSE, obR |-> FALSE, obE |-> FALSE, obX |-> FALSE]
+ExhStep2(x, m, acc, acc2, c) ==
+  [ob  |-> x.ob \/ (acc /\ acc2 /\ CanonProper(m) /\ c = qSEP),
+   obX |-> x.obX \/ (acc /\ ~acc2 /\ CanonProper(m) /\ c = qSEP),
+   obR |-> x.obR \/ (acc /\ m.cs = "root" /\ c # qSEP),
    obE |-> x.obE \/ (acc /\ m.cs = "start" /\ c # qSEP)]
+ExhStep(x, m, acc, c) == ExhStep2(x, m, acc, TRUE, c)
 
 (* ---- C11 invariant text: position in the reported text, or -1 once diverged ---- *)
 TextInit == 0
